@@ -334,11 +334,14 @@ def rule_pmoves(ctx):
                         amap.setdefault(sidx, []).append(i)
                 m = MapVal([(T[sidx], SetVal([T[i] for i in tl])) for sidx, tl in sorted(amap.items())])
                 _, outs = backend.fold(ctx, key, [m, Vec()], type_env={"Backend": tg.crate + "::Backend"}, max_steps=200000)
-                outs = [o for o in outs if not getattr(o, "diverged", None)]
                 n += 1
-                if len(outs) != 1 or not isinstance(outs[0].final.locals[2], Vec):
-                    bad.append((pos, srcs, ["the algorithm could not be folded for this map (%d paths)" % len(outs)], []))
+                msg = backend.fold_verdict(outs, "R-PMOVES: parallel_moves at %s" % b)
+                if msg:
+                    bad.append((pos, srcs, [msg], []))
                     continue
+                outs = [o for o in outs if not getattr(o, "diverged", None)]
+                if not isinstance(outs[0].final.locals[2], Vec):
+                    raise AnalysisError("R-PMOVES: the instruction list of parallel_moves is not concrete")
                 codes = outs[0].final.locals[2].items
                 mach, init = _init_machine(b, set(locs))
                 isa.run(ctx, b, codes, mach)
